@@ -151,6 +151,29 @@ Theorem interleaved_eq_solo :
                xr_status rd = Ended (snd (xrun pm pred has_filter false x_init rel toks)).
 Proof. exact interleaved_eq_solo_proof. Qed.
 
+(* Union targets "alt1 | alt2 | main" without trailing filters are inside the class: the path
+   predicate is the disjunction of the branches ([pm_union]), so for every union, every document
+   and every Release pattern the deliveries are the whole-document selection of the union in
+   document order; and the split leaves the union text alone (no closing check).  Unions WITH a
+   trailing filter have a final predicate that depends on the branch - outside the class, compared
+   on the implementation only. *)
+Theorem xml_stream_eq_select_union : forall alts tg content rel,
+  pm_union alts tg [] = false ->
+  exists L, xrun (pm_union alts tg) ptrue false false x_init rel (xdoc_events content) = (L, FEOF) /\
+            map fst L = whole_doc_selection (pm_union alts tg) ptrue (xdoc_tree content).
+Proof. exact xml_stream_eq_select_union_proof. Qed.
+
+Theorem json_stream_eq_select_union : forall alts tg j rel,
+  jwf j = true ->
+  exists L, jrun (pm_union alts tg) ptrue false false j_init rel (jdoc_events j) = (L, FEOF) /\
+            map fst L = whole_doc_selection (pm_union alts tg) ptrue (jdoc_tree j).
+Proof. exact json_stream_eq_select_union_proof. Qed.
+
+Theorem split_filter_union : forall alts steps,
+  Forall (fun s => nt_ok (snd s)) steps ->
+  split_filter (render_alts alts ++ render_steps steps) = Some (render_alts alts ++ render_steps steps, false).
+Proof. exact split_filter_union_proof. Qed.
+
 Theorem release_then_prologue : forall st st1,
   release st = Some st1 -> read_prologue st1 = read_prologue st.
 Proof. exact release_then_prologue. Qed.
@@ -274,3 +297,14 @@ Example interleaved_nonvacuous :
                [xreader_init [true; false] a; xreader_init [] b] in
   map (fun rd => (List.length (xr_out rd), xr_status rd)) sys = [(2, Ended FEOF); (1, Ended FEOF)].
 Proof. vm_compute. reflexivity. Qed.
+
+(* a union: /lib/book | /lib/magazine over mixed siblings, in document order *)
+Example union_nonvacuous :
+  let tg := mkTarget [(Child, nt "lib"); (Child, nt "magazine")] [] in
+  let alts := [[(Child, nt "lib"); (Child, nt "book")]] in
+  let doc := [E "lib" [E "book" [XT (bs "1")]; E "dvd" []; E "magazine" [XT (bs "2")]; E "book" [XT (bs "3")]]] in
+  map fst (fst (xrun (pm_union alts tg) ptrue false false x_init [] (xdoc_events doc)))
+  = [xtree (E "book" [XT (bs "1")]); xtree (E "magazine" [XT (bs "2")]); xtree (E "book" [XT (bs "3")])]
+  /\ pm_union alts tg [] = false
+  /\ (render_alts alts ++ render_target tg)%list = bs "/lib/book | /lib/magazine".
+Proof. vm_compute. repeat split. Qed.
